@@ -26,7 +26,9 @@ RUN_TIMEOUT = 600.0
 RULE = ("seeded annotated networks with 1-3 topologies (cliques 2-4, 4-/5-cycles, names such as '2-clique-blue'): clean "
         "motif networks from a direct constructor (4..40 vertices) or outputs of the real network generator under "
         "scheduled shuffles (self-loops removed), plus ONE network of ~6e5-7e5 edges (complete graph on 1100-1200 vertices with pendant "
-        "vertices) per invocation; histories of 1..5 operations on one extractor (get_ejks again, fresh "
+        "vertices) per invocation; vertex annotations stored as tuples, as lists, or as lists and tuples SIDE BY SIDE in one network; "
+        "30% of the topology lists contain a motif type whose edges carry two topology names under one motif id (diamond rim + "
+        "chord, ...); histories of 1..5 operations on one extractor (get_ejks again, fresh "
         "extractor, overall-degree variant); non-trivial = network has >= 2 edges and the history has >= 2 extractions; "
         "distinct = distinct execution digests")
 ASSUMPTIONS = ["reference = direct tally over ordered edge ends; float tolerance 1e-12 + 4.5e-16 x (edge ends of the topology), i.e. "
@@ -50,6 +52,9 @@ def generate(prng, tier, index):
     topos = [dict(t) for t in prng.sample(netsim.TOPO_POOL, ntop)]
     source = prng.choice(("direct", "direct", "generator"))
     n = prng.randrange(4, 41 if big else 15)
+    if source == "direct" and prng.random() < 0.3:
+        topos = netsim.add_composite(prng, topos)       # a motif type whose edges carry two topology names
+        ntop = len(topos)
     sc = {"variant": "clean", "source": source, "topos": topos}
     if source == "direct":
         sc["spec"] = netsim.gen_clean_spec(prng, n, topos, prng.randrange(1, 2 * n))
@@ -66,8 +71,13 @@ def generate(prng, tier, index):
     sc["set_order"] = prng.choice(("natural", "natural", "reversed", "shuffled"))
     if prng.random() < 0.3:
         sc["extra_attrs"] = [prng.choice(interesting.ATTR_NAMES[:12]), prng.choice(("int", "float", "str"))]
-    if source == "direct" and prng.random() < 0.25:
-        sc["spec"]["jd_type"] = "list"
+    if prng.random() < 0.3:
+        # representation of the vertex annotations: lists, or lists and tuples side by side in one network
+        jt = prng.choice(("list", "mixed2", "mixed3"))
+        if source == "direct":
+            sc["spec"]["jd_type"] = jt
+        else:
+            sc["jd_type"] = jt
     return sc
 
 
@@ -179,6 +189,9 @@ def _execute(sc, ctx):
             G.remove_edges_from(loops)
             ctx.probe("self_loops_removed")
     netsim.decorate(G, sc.get("extra_attrs"))
+    netsim.retype_annotations(G, sc.get("jd_type"))
+    if (sc.get("jd_type") or (sc.get("spec") or {}).get("jd_type") or "").startswith("mixed"):
+        ctx.probe("mixed_annotation_types")
     names = netsim.names({"topos": topos})[: sc.get("names_prefix", len(topos))]
     before = netsim.snapshot(G) if sc["source"] != "huge" else (G.number_of_nodes(), G.number_of_edges())
 
